@@ -27,10 +27,10 @@ import (
 )
 
 type Case struct {
-	Expr   string `json:"expr"`
-	Assign []int  `json:"assign"` // per block (100,101,102): bitmask over keys
+	Expr   string   `json:"expr"`
+	Assign []int    `json:"assign"` // per block (100,101,102): bitmask over keys
 	Keys   []string `json:"keys"`
-	File   bool   `json:"file,omitempty"` // also through index.File save+load
+	File   bool     `json:"file,omitempty"` // also through index.File save+load
 }
 
 var blocks = []uint64{100, 101, 102}
@@ -91,7 +91,9 @@ func Eval(cs Case) (*core.Fail, bool) {
 	before := snapshot()
 	bm := sqe.RoaringBitmapsApply(expr, indices)
 	bi := index.NewBlockIndex(expr, "idx", bm)
-	desc := func() string { return fmt.Sprintf("expr %q keys %q per-block key sets %v (index: %s)", cs.Expr, cs.Keys, cs.Assign, before) }
+	desc := func() string {
+		return fmt.Sprintf("expr %q keys %q per-block key sets %v (index: %s)", cs.Expr, cs.Keys, cs.Assign, before)
+	}
 	for b, mask := range cs.Assign {
 		var keys []string
 		for ki, k := range cs.Keys {
